@@ -13,7 +13,8 @@ CFG = cfg('C01', refine=['Refine_sig'], extract='Ex_Sig', driver='sig',
 TEXT = ('Rocq theorems (Props/C01.v, closed): the hash input is an injective function of (subject, signature type, both algorithm ids, hashed area) '
         'for all well-formed inputs (hashdata_injective, by reading the trailer from the end and peeling the 0x99/0xB4/0xD1 framing), any change of a '
         'header field or hashed octet changes the hash input for any subjects, and PGPKey.verify records success for a pair only through the primitive '
-        'on exactly that input and never under a disqualifying issue. PARTIAL: unforgeability / collision resistance are premises, not theorems. '
+        'on exactly that input and never under a disqualifying issue; a signature carried in a literal message covers the literal\'s octets '
+        '(Model/SignedMsg.v: C01_msg_binary_injective; the pre-repair rule that hashed two encodings of one text alike is refuted). PARTIAL: unforgeability / collision resistance are premises, not theorems. '
         'Tie: hash-input and per-entry verdict correspondence with the extracted model + mutation search on the real code over every mutation class.',
         'DESIGN.md 5 C01',
         'machine-checked proof in Rocq (Coq 8.16.1) + extracted-model correspondence + mutation enumeration')
